@@ -1127,6 +1127,10 @@ func wrapAny(val Node, targetType *Type) Node {
 	if targetType == ANY_TYPE {
 		if inf, ok := val.(inferrer); ok {
 			inf.infer()
+		} else if concrete := valType.infer(); !concrete.Equals(valType) {
+			// an expression over literals that still contain untyped empty
+			// arrays or maps, e.g. [[]][0]: give it its concrete type
+			val = wrapAny(val, concrete)
 		}
 		return &Any{token: val.Token(), Value: val}
 	}
